@@ -151,6 +151,8 @@ def known_len(ctx, f, an, e, bb):
 
 
 def type_len(ctx, f, an, es):
+    while es.k in ("deref", "ref") and es.a and strip(es.a[0]).k in ("field", "deref", "ref"):
+        es = strip(es.a[0])
     if es.k == "param":
         t = f.local_ty(es.a[0])
         while t.get("k") == "ref":
@@ -166,7 +168,28 @@ def type_len(ctx, f, an, es):
                     ty = ty["of"]
                 if ty.get("k") == "array":
                     return ty.get("n")
-    if es.k == "field" and es.meta is None:
+    if es.k == "field":
+        # a field of array type of a struct reached from a parameter (self.raw: [u8; 32])
+        b_ = strip(es.a[0])
+        while b_.k in ("deref", "ref"):
+            b_ = strip(b_.a[0])
+        if b_.k == "param":
+            t = f.local_ty(b_.a[0])
+            while t.get("k") == "ref":
+                t = t["of"]
+            a_ = ctx.facts.adts.get(t.get("adt")) if t.get("k") == "adt" else None
+            if a_ is not None and len(a_["variants"]) == 1:
+                for fl in a_["variants"][0]["fields"]:
+                    if fl["name"] == es.a[1] and fl["ty"].get("k") == "array":
+                        n_ = fl["ty"].get("n")
+                        if n_ is None:
+                            # the declared length is a named constant (`[u8; NODE_ID_LENGTH]`): take its evaluated value
+                            m_ = re.match(r"^\[u8; ([A-Za-z_][A-Za-z0-9_:]*)\]$", fl["ty"].get("s", ""))
+                            if m_:
+                                hits = [c_ for p_, c_ in ctx.facts.consts.items() if p_ == m_.group(1) or p_.endswith("::" + m_.group(1))]
+                                if len(hits) == 1 and isinstance(hits[0].get("val", {}).get("int"), int):
+                                    n_ = hits[0]["val"]["int"]
+                        return n_
         return None
     return None
 
